@@ -26,6 +26,12 @@ type Cfg struct {
 	Origin uint64  `json:"origin_ms"`
 	NRes   int     `json:"nres"`
 	Rules  []BRule `json:"rules"`
+	// Back (scripted scenario, clock fault): one breaker is driven open, its probe is admitted after the retry
+	// timeout, then the clock is set back by BackMs before the probe completes (ok or failed, BackFail). The probe's
+	// completion still decides the half-open breaker, and the resource serves requests again afterwards.
+	Back     bool   `json:"back,omitempty"`
+	BackMs   uint64 `json:"back_ms,omitempty"`
+	BackFail bool   `json:"back_fail,omitempty"`
 }
 
 type P struct{}
@@ -41,6 +47,7 @@ func (P) Describe() harness.Description {
 		Level:   "exploration",
 		Rule: "case = (1-2 resources, 1-2 breakers per resource over all three strategies, thresholds incl. 0 and 1, minimum amounts, retry timeouts, statistic intervals x bucket counts (incl. non-dividing), probe numbers 0-3, slow-RT limits; 20-100 ops: start request, complete request j (ok/error, duration = virtual time elapsed), ticks biased to the retry deadline (exact, -1, +1), bucket boundaries and whole-window gaps). " +
 			"Every Entry result (pass / circuit-breaking block with the blocking rule) must equal the reference machine's, and after every op the listener log must equal the reference transition list (same transitions, same previous state, each once). " +
+			"4 % of the cases, clock fault: a breaker is driven open, its probe admitted after the retry timeout, the clock set back by 1 ms .. 60 s, the probe completes - the third transition the listeners hear is the probe's outcome, and a request is served again once the clock has caught up and a retry timeout passed. " +
 			"non-trivial = a breaker went Closed->Open->HalfOpen and then closed or re-opened; distinct = hash(config, ops)",
 		Assumptions: []string{
 			"a completion, while half-open, of a request admitted before that passage to half-open may count as the probe's outcome (the implementation's choice: 'driven only by completed requests and time') or be ignored ('successful probes close it'): the reference follows the listeners there, everything else is fixed",
@@ -75,6 +82,20 @@ func genRule(rng *sim.Rng) model.BreakerRule {
 }
 
 func (P) Gen(rng *sim.Rng, tier string) *harness.Case {
+	if rng.Chance(0.04) {
+		r := model.BreakerRule{Strategy: rng.Intn(3), RetryMs: []uint64{500, 1000, 3000}[rng.Intn(3)], MinReq: uint64(rng.Range(1, 3)),
+			StatMs: []uint64{1000, 2000}[rng.Intn(2)], Buckets: []uint32{0, 1, 2, 4}[rng.Intn(4)], ProbeNum: uint64(rng.Intn(2)), MaxRt: 50, Threshold: 0.5}
+		if r.Strategy == model.ErrCount {
+			r.Threshold = 1
+		}
+		L := r.StatMs
+		if r.Buckets > 1 {
+			L = r.StatMs / uint64(r.Buckets)
+		}
+		cfg := Cfg{NRes: 1, Origin: 1700000000000 + rng.U64Range(0, 100000), Rules: []BRule{{ID: "b0", Res: 0, BreakerRule: r}}, Back: true,
+			BackMs: []uint64{1, 10, L - 1, L, L + 1, r.StatMs, r.StatMs + r.RetryMs, 60000}[rng.Intn(8)], BackFail: rng.Chance(0.5)}
+		return &harness.Case{Cfg: harness.MustJSON(cfg), Callers: [][]harness.Op{{{K: "back"}}}}
+	}
 	cfg := Cfg{NRes: rng.Range(1, 2), Origin: 1700000000000 + rng.U64Range(0, 100000)}
 	id := 0
 	for r := 0; r < cfg.NRes; r++ {
@@ -237,6 +258,10 @@ func (P) Exec(c *harness.Case) *harness.Outcome {
 		return o
 	}
 	defer cb.ClearStateChangeListeners()
+	if cfg.Back {
+		execBack(&cfg, o, clk, lis)
+		return o
+	}
 	var want []lev // reference transition list, in emission order
 	sync := func() {
 		for _, rs := range brs {
@@ -420,4 +445,90 @@ func (P) Exec(c *harness.Case) *harness.Outcome {
 		}
 	}
 	return o
+}
+
+// execBack: see Cfg.Back. Nothing here depends on what a window holds after the clock went back: a completion
+// while half-open is the probe's outcome whatever the statistic can record.
+func execBack(cfg *Cfg, o *harness.Outcome, clk *sim.Clock, lis *listener) {
+	if len(cfg.Rules) != 1 || cfg.Rules[0].Res != 0 || cfg.Rules[0].ProbeNum > 1 || cfg.Rules[0].MaxRt == 0 || cfg.Rules[0].MinReq > 10 || cfg.BackMs == 0 || cfg.BackMs > 1e7 {
+		return
+	}
+	r := cfg.Rules[0]
+	res := harness.ResName(0)
+	request := func(fail bool, takeMs uint64) bool {
+		var e *base.SentinelEntry
+		if !harness.Call(o, "C03.panic", 0, func() { e, _ = sentinel.Entry(res, harness.EntryOpts(1, false, nil, nil, nil)...) }) || e == nil {
+			return false
+		}
+		clk.AdvanceMs(takeMs)
+		o.SimMs += takeMs
+		harness.Call(o, "C03.panic", 0, func() {
+			if fail && r.Strategy != model.SlowRatio {
+				sentinel.TraceError(e, fmt.Errorf("failed"))
+			}
+			e.Exit()
+		})
+		return true
+	}
+	last := func() lev {
+		if len(lis.log) == 0 {
+			return lev{}
+		}
+		return lis.log[len(lis.log)-1]
+	}
+	// failing requests (errors; for the slow strategy requests slower than the limit) until the breaker opens
+	for i := 0; i < int(r.MinReq)+3 && last().to != model.Open; i++ {
+		if !request(true, r.MaxRt+10) || o.Failed() {
+			return
+		}
+	}
+	if len(lis.log) != 1 || last() != (lev{r.ID, model.Closed, model.Open}) {
+		return
+	}
+	clk.AdvanceMs(r.RetryMs + 1)
+	o.SimMs += r.RetryMs + 1
+	var probe *base.SentinelEntry
+	if !harness.Call(o, "C03.panic", 0, func() { probe, _ = sentinel.Entry(res, harness.EntryOpts(1, false, nil, nil, nil)...) }) {
+		return
+	}
+	if probe == nil || last() != (lev{r.ID, model.Open, model.HalfOpen}) {
+		return // (the ordinary histories check this step)
+	}
+	o.Probe("probe_admitted")
+	// the probe takes longer than the slow limit when it is to fail under the slow strategy; then the clock goes back
+	took := uint64(1)
+	if cfg.BackFail {
+		took = r.MaxRt + 10
+	}
+	clk.AdvanceMs(took)
+	before := clk.NowMs()
+	clk.SetNs((before - cfg.BackMs) * 1e6)
+	failed := cfg.BackFail
+	if r.Strategy == model.SlowRatio {
+		// the response time is what the clock says now (never negative)
+		failed = cfg.BackMs < took && took-cfg.BackMs > r.MaxRt
+	}
+	if !harness.Call(o, "C03.panic", 0, func() {
+		if cfg.BackFail && r.Strategy != model.SlowRatio {
+			sentinel.TraceError(probe, fmt.Errorf("failed"))
+		}
+		probe.Exit()
+	}) {
+		return
+	}
+	o.Probe("straggler_or_probe_completion")
+	o.Nontrivial = true
+	want := lev{r.ID, model.HalfOpen, model.Closed}
+	if failed {
+		want = lev{r.ID, model.HalfOpen, model.Open}
+	}
+	if len(lis.log) != 3 || last() != want {
+		o.Fail("C03.probe-completion-lost-after-clock-step-back", 0, "breaker %+v opened, its probe was admitted after the retry timeout, the clock was set back by %d ms and the probe completed (%s): the listeners heard %v, the probe's outcome demands %s -> %s as the third transition", r.BreakerRule, cfg.BackMs, map[bool]string{true: "failed", false: "ok"}[failed], lis.log, model.StateName[want.from], model.StateName[want.to])
+		return
+	}
+	// once the clock has caught up and a full retry timeout has passed, the resource serves a request again
+	clk.AdvanceMs(cfg.BackMs + 2*r.RetryMs + r.StatMs)
+	if !request(false, 1) && !o.Failed() {
+		o.Fail("C03.rejected-for-good-after-clock-step-back", 0, "breaker %+v: after the probe completed (%s) behind a clock step back of %d ms, a request %d ms later is still rejected", r.BreakerRule, map[bool]string{true: "failed", false: "ok"}[failed], cfg.BackMs, cfg.BackMs+2*r.RetryMs+r.StatMs)
+	}
 }
